@@ -97,7 +97,7 @@ BF(name, attr, kind, cls, nullable, path) ==
   [name |-> name, attr |-> attr, kind |-> kind, cls |-> cls, tfty |-> TfTyOf(cls), zero |-> HasZeroLit(cls),
    nullable |-> nullable, oneof |-> "", embed |-> "", placeholder |-> FALSE, path |-> path, msg |-> NoMsg,
    required |-> FALSE, computed |-> FALSE, sensitive |-> FALSE, validators |-> <<>>, planmods |-> <<>>,
-   desc |-> <<>>, suffix |-> "", gopath |-> <<name>>, proto |-> name, tn |-> "", fixeddesc |-> "", pzero |-> Nil, pmixed |-> FALSE, goty |-> "", rep |-> FALSE]
+   desc |-> <<>>, suffix |-> "", gopath |-> <<name>>, proto |-> name, tn |-> "", fixeddesc |-> "", pzero |-> Nil, pmixed |-> FALSE, goty |-> "", rep |-> FALSE, ismap |-> FALSE]
 
 PlaceholderDesc == "Automatically generated field preventing empty message errors"
 
@@ -174,6 +174,10 @@ BuildField(q, d, cfg, m, mpath, i, fuel) ==
       path == IF f.embed THEN (IF q /\ Q("embedPathReset") THEN m.name ELSE mpath) ELSE mpath \o "." \o f.name
       cls == TfClass(cfg, f)
       computed == FlagValue(cfg.computed, tn, path)
+      \* schema_types: the attribute type of the field (and of its elements) is replaced; looked up by path, then by
+      \* Message.field.  The harness offers two replacement types (strings / 64-bit integers under other names).
+      ovr == IF KVHas(cfg.schematypes, path) THEN KVGet(cfg.schematypes, path)
+             ELSE IF KVHas(cfg.schematypes, tn) THEN KVGet(cfg.schematypes, tn) ELSE ""
       base == [BF(GoName(f.name), NameSnake(cfg, f, tn, path), "prim", cls, GoPointer(f), path) EXCEPT
                  !.required = FlagValue(cfg.required, tn, path),
                  !.computed = computed,
@@ -184,7 +188,9 @@ BuildField(q, d, cfg, m, mpath, i, fuel) ==
                  !.proto = f.name,
                  !.tn = tn,
                  !.goty = GoBaseType(cfg, f),
+                 !.tfty = IF ovr = "string" THEN "ovrstring" ELSE IF ovr = "int64" THEN "ovrint64" ELSE @,
                  !.rep = f.card = "rep",
+                 !.ismap = f.card = "map",
                  !.oneof = IF f.oneof = "" THEN "" ELSE GoName(f.oneof)]
       iscustom == f.custom # "" \/ KVHas(cfg.customtypes, path)
       custom(F) == IF iscustom THEN [F EXCEPT !.kind = "custom", !.suffix = SuffixOf(cfg, CustomTypeOf(cfg, f, path))] ELSE F
